@@ -402,7 +402,8 @@ def f_parent_index_no_name(it, g, pos, spell):
 
 def f_rare_diagnostic(it, g, pos, spell):
     """documented diagnostics of seldom used corners (each transcribed from the message string in the source of the rule)"""
-    form = g.pick(["dup_child_path", "permeate_on_struct_field", "member_repeat_unterminated", "param_twice", "two_nested_parents", "unknown_nested_instruction"])
+    form = g.pick(["dup_child_path", "permeate_on_struct_field", "member_repeat_unterminated", "param_twice", "two_nested_parents", "unknown_nested_instruction",
+                   "repeat_unsupported_type", "repeat_unsupported_type", "dedicated_to_bare_path"])
     k = g.mark()
     if form == "dup_child_path":
         if it.kind != "struct":
@@ -425,6 +426,35 @@ def f_rare_diagnostic(it, g, pos, spell):
         ms[0].attrs.append(Instr("repeat", "repeat", permeate=False, cats=[], spelling="o2o"))
         ms[-1].attrs.append(Instr("repeat", "repeat", permeate=False, cats=[], spelling="o2o"))
         return Fault("rare", form, ["Previous #[repeat] instruction must be terminated with #[stop_repeat]"], parse_stage=True)
+    if form == "repeat_unsupported_type":
+        bogus = g.pick(["children", "ghosts", "literal", "bogus"])
+        if g.chance(0.5):
+            ms = _members(it)
+            if not ms or any(a.kind in ("repeat", "stop_repeat", "skip_repeat") for m in ms for a in m.attrs):
+                return None
+            _pick_member(it, pos).attrs.append(Instr("repeat", "repeat", permeate=False, cats=[g.pick(["map", "child"]), bogus], spelling="o2o"))
+            return Fault("rare", form + "/member", [f"#[repeat] of instruction type '{bogus}' is not supported. Supported types are: map, child, parent, ghost, type_hint"], parse_stage=True)
+        zn = _fresh(g)
+        nm = g.pick(["from_owned", "owned_into", "try_from_ref"])
+        _ins(it.attrs, pos, Instr(nm, "trait", ty=zn, hint=None, err="Ep" if "try" in nm else None, params=[("repeat", ["vars", bogus]), ("vars", [("v", "1")])], spelling=spell))
+        return Fault("rare", form + "/trait", [f"#[repeat] of instruction type '{bogus}' is not supported. Supported types are: vars, update, quick_return, default_case"], parse_stage=True)
+    if form == "dedicated_to_bare_path":
+        # a `Type|` prefix has to spell the counterpart as the trait instruction does, generic arguments included
+        gens = [t.f["ty"] for t in _trait_instrs(it) if "<" in t.f["ty"] and "::<" not in t.f["ty"]]
+        bare = None
+        for c_ in gens:
+            b_ = c_.split("<")[0]
+            if not any(t.f["ty"] == b_ for t in _trait_instrs(it)):
+                bare = b_
+                break
+        if bare is None:
+            return None
+        if it.generics == "":
+            it.generics = "<T>"
+        if any(a.kind == "where_clause" and a.container() == bare for a in it.attrs):
+            return None
+        _ins(it.attrs, pos, Instr("where_clause", "where_clause", container=bare, preds=f"T: W{k}", spelling=spell))
+        return Fault("rare", form, [f"Type '{bare}' doesn't match any type specified in trait instructions."])
     if form == "param_twice":
         zn = _fresh(g)
         pn = g.pick(["vars", "attribute", "impl_attribute", "inner_attribute", "skip_repeat", "stop_repeat"])
